@@ -43,6 +43,7 @@ public:
 private:
     std::unique_ptr<NameCatalog> catalog_;
     bool withinTypedef_;
+    bool withinFunctionDefinitionDeclarator_;
 
     using SyntaxVisitor::visit;
     using Base = SyntaxVisitor;
@@ -52,12 +53,15 @@ private:
     //--------------//
     Action visitTranslationUnit(const TranslationUnitSyntax*) override;
     Action visitTypedefDeclaration(const TypedefDeclarationSyntax*) override;
+    Action visitFunctionDefinition(const FunctionDefinitionSyntax*) override;
+    Action visitEnumeratorDeclaration(const EnumeratorDeclarationSyntax*) override;
 
     /* Specifiers */
     Action visitTypedefName(const TypedefNameSyntax*) override;
 
     /* Declarators */
     Action visitIdentifierDeclarator(const IdentifierDeclaratorSyntax*) override;
+    Action visitParameterSuffix(const ParameterSuffixSyntax*) override;
 
     //-------------//
     // Expressions //
